@@ -73,6 +73,12 @@ impl Rng {
         v
     }
 
+    /// Random bytes of a random length in [0, max).
+    pub fn bytes_upto(&mut self, max: u64) -> Vec<u8> {
+        let n = self.below(max) as usize;
+        self.bytes(n)
+    }
+
     pub fn b32(&mut self) -> [u8; 32] {
         let mut out = [0u8; 32];
         out.copy_from_slice(&self.bytes(32));
